@@ -18,12 +18,15 @@ Neg(a)   == (Q - (a % Q)) % Q
 Sub(a,b) == (a + Neg(b)) % Q
 Mul(a,b) == (a * b) % Q
 
+\* square-and-multiply, so that the same definitions serve the exhaustive toy
+\* fields (q <= 13) and the witness field (q ~ 2*10^4, trace validation)
 RECURSIVE Pow(_,_)
-Pow(a,k) == IF k = 0 THEN 1 % Q ELSE Mul(a, Pow(a, k-1))
+Pow(a,k) == IF k = 0 THEN 1 % Q
+            ELSE LET h == Pow(a, k \div 2) IN
+                 IF k % 2 = 0 THEN Mul(h, h) ELSE Mul(Mul(h, h), a)
 
-\* multiplicative inverse table, evaluated once by TLC
-InvT == [a \in ZqNZ |-> CHOOSE b \in ZqNZ : (a*b) % Q = 1]
-Inv(a) == InvT[a]
+\* multiplicative inverse (a # 0) by Fermat
+Inv(a) == Pow(a, Q - 2)
 
 \* sums and products over sequences
 RECURSIVE SumSeq(_)
